@@ -414,11 +414,11 @@ fn path_trace_case(entries: usize, own_at: Option<usize>) {
 
 // @harness c15_path_trace_stored
 // @props C15 C03
-// @tier quick
+// @tier thorough
 // @variant dl128_lists2
 // @stubbing yes
-// @timeout 2400
-// @mem 16
+// @timeout 3600
+// @mem 34
 // @functions Port::handle_announce (path trace block), TlvSetIterator::next, ArrayVec::from_iter
 // @bounds slave port, path trace on, Announce from the parent with a PATH_TRACE TLV of 3 symbolic identities none of which is the own identity
 // @assume MAX_DATA_LEN scaled to 128 (path capacity 16); stubs as in c11_handle_announce
@@ -432,11 +432,11 @@ fn c15_path_trace_stored() { path_trace_case(3, None) }
 
 // @harness c15_path_trace_loop
 // @props C15 C03
-// @tier quick
+// @tier thorough
 // @variant dl128_lists2
 // @stubbing yes
-// @timeout 2400
-// @mem 16
+// @timeout 3600
+// @mem 34
 // @functions Port::handle_announce (path trace block)
 // @bounds as c15_path_trace_stored with the own identity in second position of a 3-entry path
 // @assume as c15_path_trace_stored
@@ -450,11 +450,11 @@ fn c15_path_trace_loop() { path_trace_case(3, Some(1)) }
 
 // @harness c15_path_trace_over_capacity
 // @props C15 C03
-// @tier quick
+// @tier thorough
 // @variant dl128_lists2
 // @stubbing yes
-// @timeout 3000
-// @mem 20
+// @timeout 3600
+// @mem 34
 // @functions Port::handle_announce (path trace block), ArrayVec::from_iter
 // @bounds as c15_path_trace_stored with capacity + 1 = 17 entries (129 at the real MAX_DATA_LEN; the UDP general socket buffer of the daemon is 2048 octets)
 // @assume as c15_path_trace_stored
